@@ -882,7 +882,66 @@ def r3_time_grid(ctx, rid):
     f_inp, f_flag, f_T = fp[2], fp[3], fp[4]
     _CANON = ("asarray", "array", "squeeze", "ascontiguousarray", "asanyarray", "atleast_1d")
 
-    def canon_array(e, seen=None, depth=8):
+    array_why: List[str] = []
+
+    def fixed_step_path(st) -> bool:
+        """the statement is only reached when _add_input's adaptive flag is false (else-branch of a test of the flag, body of `not flag`)"""
+        for anc in ancestors(st):
+            if not isinstance(anc, ast.If):
+                continue
+            t = anc.test
+            neg = isinstance(t, ast.UnaryOp) and isinstance(t.op, ast.Not)
+            core = t.operand if neg else t
+            conj = list(core.values) if isinstance(core, ast.BoolOp) and isinstance(core.op, ast.And) and not neg else [core]
+            flag_here = [x for x in conj if isinstance(x, ast.Name) and _unmodified_param(ctx, fa, x, f_flag)]
+            if not flag_here:
+                # `if not adaptive and ...` as a conjunct
+                if not neg and any(isinstance(x, ast.UnaryOp) and isinstance(x.op, ast.Not) and isinstance(x.operand, ast.Name)
+                                   and _unmodified_param(ctx, fa, x.operand, f_flag) for x in conj) and any(contains(b_, st) for b_ in anc.body):
+                    return True
+                continue
+            in_body, in_else = any(contains(b_, st) for b_ in anc.body), any(contains(b_, st) for b_ in anc.orelse)
+            if (in_else and not neg and len(conj) == 1) or (in_body and neg):
+                return True
+        return False
+
+    def length_change(v, d):
+        """None: the expression does not change the number of samples.  Otherwise (ok, reason, inner array expression): cutting at
+        the END (`x[:n]`) and continuing at the END with the last sample (`concatenate([x, pad])`) keep sample k at step k and are
+        licensed on the fixed-step path only - with an adaptive solver the samples are spread over [0, T] by their number."""
+        kind = inner = None
+        if isinstance(v, ast.Subscript) and isinstance(v.slice, ast.Slice) and not (v.slice.lower is None and v.slice.upper is None):
+            inner = v.value
+            front_ok = (v.slice.lower is None or (isinstance(v.slice.lower, ast.Constant) and v.slice.lower.value == 0)) and v.slice.step is None
+            if not front_ok:
+                return False, (f"`{norm(d)}` cuts samples away at the front / with a stride: sample k is no longer the value of "
+                               f"integration step k"), inner
+            kind = "trimmed at the end"
+        elif isinstance(v, ast.Call) and call_name(v) in ("concatenate", "append", "hstack", "vstack", "pad", "resize"):
+            parts = None
+            if call_name(v) == "concatenate" and v.args and isinstance(v.args[0], (ast.List, ast.Tuple)) and len(v.args[0].elts) == 2:
+                parts = v.args[0].elts
+            elif call_name(v) == "append" and len(v.args) >= 2:
+                parts = v.args[:2]
+            if parts is None:
+                return None if call_name(v) not in ("pad", "resize") else (False, f"`{norm(d)}` changes the number of samples in an unrecognised way", v)
+            first, second = parts
+            if canon_array(first, set(), 12) is False:
+                return False, (f"`{norm(d)}` puts other values in front of the samples: sample k is no longer the value of step k"), first
+            tail = resolve_local(ctx, fa, second)
+            last_value = any(isinstance(n_, ast.Subscript) and ast.unparse(n_.slice) in ("-1", "-1:") for n_ in ast.walk(tail))
+            if not last_value:
+                return False, (f"`{norm(d)}` continues the input with `{norm(tail)[:60]}`, not with its last sample"), first
+            inner, kind = first, "continued at the end with its last sample"
+        else:
+            return None
+        if not fixed_step_path(d):
+            return False, (f"`{norm(d)}` ({kind}) changes the number of samples also when `{f_flag}` is true: with an adaptive solver "
+                           f"create_input_node spreads the samples over [0, T] by their number, so the input is re-timed (stretched or "
+                           f"compressed); a change of length is only harmless on the fixed-step path, where sample k is read at step k"), inner
+        return True, None, inner
+
+    def canon_array(e, seen=None, depth=16):
         """True: e is _add_input's array parameter, at most passed through shape/typing canonicalisations (asarray, squeeze) on
         every path; False: something else provably (another parameter, arithmetic, slicing); None: cannot tell."""
         seen = set() if seen is None else seen
@@ -904,6 +963,13 @@ def r3_time_grid(ctx, rid):
                     continue
                 seen.add((id(d), e.id))
                 v = assigned_value(d, e.id)
+                lc = length_change(v, d) if v is not None else None
+                if lc is not None:
+                    ok_lc, why_lc, base_lc = lc
+                    if not ok_lc:
+                        array_why.append(why_lc)
+                        return False
+                    v = base_lc
                 r = canon_array(v, seen, depth - 1) if v is not None else None
                 if r is False:
                     return False
@@ -918,6 +984,16 @@ def r3_time_grid(ctx, rid):
             if isinstance(recv, ast.Name) and recv.id in ("np", "numpy"):
                 return canon_array(e.args[0], seen, depth - 1) if e.args else None
             return canon_array(recv, seen, depth - 1)
+        if isinstance(e, ast.Call) and call_name(e) in ("full", "full_like", "repeat", "tile", "ones") and len(e.args) >= 2:
+            # a scalar expanded to a constant input: the fill value must be the caller's value
+            fill = e.args[1] if call_name(e) in ("full", "full_like") else e.args[0]
+            base = fill
+            while isinstance(base, (ast.Subscript, ast.Call)):
+                base = base.value if isinstance(base, ast.Subscript) else (base.func.value if isinstance(base.func, ast.Attribute) else
+                                                                          (base.args[0] if base.args else None))
+                if base is None:
+                    return None
+            return canon_array(base, seen, depth - 1) if isinstance(base, ast.Name) else None
         if isinstance(e, ast.Call):
             return None
         if isinstance(e, (ast.BinOp, ast.Subscript, ast.UnaryOp, ast.Constant, ast.List, ast.Tuple)):
@@ -941,7 +1017,7 @@ def r3_time_grid(ctx, rid):
         "adaptive flag": (p_cont in bound and _unmodified_param(ctx, fa, bound[p_cont], f_flag),
                           f"`{p_cont}` must receive _add_input's `{f_flag}`: interpolation would be chosen independently of the solver"),
         "array": (array_ok is True,
-                  f"`{p_inp}` must receive the (shape-canonicalised) input array"),
+                  (array_why[0] if array_why else f"`{p_inp}` must receive the (shape-canonicalised) input array")),
         "variable name": (var_ok, f"`{p_var}` must receive the last component of the addressed path"),
     }
     for what, (good, msg) in checks.items():
